@@ -470,6 +470,37 @@ func TestLiteral(t *testing.T) {
 	})
 }
 
+// convertExpected: the obvious conversion of a configured scalar to another scalar kind.
+func convertExpected(v any, typ reflect.Type) any {
+	var f float64
+	var s string
+	switch x := v.(type) {
+	case int:
+		f, s = float64(x), strconv.Itoa(x)
+	case float64:
+		f, s = x, strconv.FormatFloat(x, 'f', -1, 64)
+	case string:
+		f, _ = strconv.ParseFloat(x, 64)
+		s = x
+	}
+	out := reflect.New(typ).Elem()
+	switch typ.Kind() {
+	case reflect.String:
+		out.SetString(s)
+	case reflect.Float64, reflect.Float32:
+		out.SetFloat(f)
+	case reflect.Int, reflect.Int64, reflect.Int16:
+		if n, ok := v.(int); ok {
+			out.SetInt(int64(n))
+		} else {
+			out.SetInt(int64(f))
+		}
+	case reflect.Uint:
+		out.SetUint(uint64(v.(int)))
+	}
+	return out.Interface()
+}
+
 // TestCrossType: the configured value has one scalar kind, the fields another compatible one
 // (int -> float / string / narrower int, float -> string / int, numeric string -> int / float).
 // The prefix-bound twin is the reference: the value / prop twins must agree with it.
@@ -495,6 +526,9 @@ func TestCrossType(t *testing.T) {
 				rapid.SampledFrom([]float64{0.5, 1500000.5, 1e6, 2e6, 123456789, 1e21, 0.00001, 1e-7, 3}),
 				rapid.Float64Range(-1e9, 1e9),
 			).Draw(t, "f")
+			if f == 0 {
+				f = 0 // no negative zero: YAML reads "-0" back as the integer 0
+			}
 			v = f
 			targets = []reflect.Type{tF64, tStr}
 			if f == math.Trunc(f) && math.Abs(f) < 1<<53 {
@@ -510,6 +544,7 @@ func TestCrossType(t *testing.T) {
 			}
 		}
 		typ := rapid.SampledFrom(targets).Draw(t, "target")
+		expected := convertExpected(v, typ)
 		doc, _ := yaml.Marshal(map[string]any{"c17": map[string]any{"key": v, "other": 1}})
 		obj := reflect.New(reflect.StructOf([]reflect.StructField{
 			{Name: "P", Type: typ, Tag: `prefix:"c17.key"`},
@@ -521,7 +556,10 @@ func TestCrossType(t *testing.T) {
 		desc := fmt.Sprintf("cross %T %#v -> %s", v, v, typ)
 		// the reference alone first: if even prefix binding refuses the conversion the case is out of scope
 		if out := kit.RunApp(app.SetComponents(ref.Interface()), app.SetConfigLoader(loader.NewRawLoader(doc))); !out.OK() {
-			t.Skip("prefix binding refuses this conversion")
+			t.Fatalf("C17: prefix binding refuses to convert %s: %v", desc, out)
+		}
+		if got := ref.Elem().Field(0).Interface(); !reflect.DeepEqual(got, expected) {
+			t.Fatalf("C17: %s: prefix binding gives %#v, the configured value converted to the field's type is %#v", desc, got, expected)
 		}
 		out := kit.RunApp(app.SetComponents(obj.Interface()), app.SetConfigLoader(loader.NewRawLoader(doc)))
 		if out.Panic != nil {
@@ -652,5 +690,84 @@ func TestConversions(t *testing.T) {
 			}
 		}
 		kit.Rec.Case(desc, true, fmt.Sprintf("conversion/%T", want))
+	})
+}
+
+
+// ---- structs against configuration subtrees that do not match one to one, and values that cannot be converted ----
+
+type Emb struct {
+	X int `yaml:"x"`
+}
+type WithEmb struct {
+	Emb
+	Y int `yaml:"y"`
+}
+type Partial struct {
+	A int    `yaml:"a"`
+	B string `yaml:"b"`
+	C []int  `yaml:"c"`
+}
+
+func TestStructShapes(t *testing.T) {
+	kit.Rec.Rule(rule)
+	rapid.Check(t, func(t *rapid.T) {
+		a, x, y := rapid.IntRange(1, 99).Draw(t, "a"), rapid.IntRange(1, 99).Draw(t, "x"), rapid.IntRange(1, 99).Draw(t, "y")
+		var doc string
+		var typ reflect.Type
+		var want any
+		switch rapid.IntRange(0, 3).Draw(t, "shape") {
+		case 0: // the subtree has MORE keys than the struct: the extra ones are ignored
+			doc = fmt.Sprintf("c17:\n  key:\n    a: %d\n    b: bee\n    c: [1, 2]\n    extra: 5\n    more:\n      deep: 1\n", a)
+			typ, want = reflect.TypeOf(Partial{}), Partial{A: a, B: "bee", C: []int{1, 2}}
+		case 1: // the subtree has FEWER keys: the missing fields stay zero
+			doc = fmt.Sprintf("c17:\n  key:\n    a: %d\n", a)
+			typ, want = reflect.TypeOf(Partial{}), Partial{A: a}
+		case 2: // an embedded struct is a nested struct under its (lower-cased) type name
+			doc = fmt.Sprintf("c17:\n  key:\n    emb:\n      x: %d\n    y: %d\n", x, y)
+			typ, want = reflect.TypeOf(WithEmb{}), WithEmb{Emb: Emb{X: x}, Y: y}
+		default: // pointer to struct, fewer keys
+			doc = fmt.Sprintf("c17:\n  key:\n    b: z%d\n", a)
+			typ, want = reflect.TypeOf(&Partial{}), &Partial{B: fmt.Sprintf("z%d", a)}
+		}
+		obj := reflect.New(reflect.StructOf([]reflect.StructField{
+			{Name: "P", Type: typ, Tag: `prefix:"c17.key"`},
+			{Name: "V", Type: typ, Tag: `value:"${c17.key}"`},
+			{Name: "Q", Type: typ, Tag: `prop:"c17.key"`},
+		}))
+		out := kit.RunApp(app.SetComponents(obj.Interface()), app.SetConfigLoader(loader.NewRawLoader([]byte(doc))))
+		desc := fmt.Sprintf("struct-shape %s doc=%q", typ, doc)
+		if !out.OK() {
+			t.Fatalf("C17: %s failed: %v", desc, out)
+		}
+		for i := 0; i < 3; i++ {
+			if got := obj.Elem().Field(i).Interface(); !reflect.DeepEqual(got, want) {
+				t.Fatalf("C17: %s: field %s holds %#v, want %#v", desc, obj.Elem().Type().Field(i).Tag, got, want)
+			}
+		}
+		kit.Rec.Case(desc, true, "struct-shape")
+	})
+}
+
+// TestInconvertible: a configured value that cannot be converted to the field's type is rejected with an
+// error on every path - never bound as something else, never silently skipped, never a panic.
+func TestInconvertible(t *testing.T) {
+	kit.Rec.Rule(rule)
+	rapid.Check(t, func(t *rapid.T) {
+		bad := rapid.SampledFrom([]string{"abc", "12x", "one", "1.2.3", "x"}).Draw(t, "bad")
+		typ := rapid.SampledFrom([]reflect.Type{reflect.TypeOf(0), reflect.TypeOf(int64(0)), reflect.TypeOf(uint8(0)), reflect.TypeOf(float64(0)), reflect.TypeOf([]int(nil)), reflect.TypeOf(Partial{})}).Draw(t, "typ")
+		via := rapid.SampledFrom([]string{"prefix", "value", "prop"}).Draw(t, "via")
+		tag := map[string]string{"prefix": "c17.key", "value": "${c17.key}", "prop": "c17.key"}[via]
+		obj := reflect.New(reflect.StructOf([]reflect.StructField{{Name: "F", Type: typ, Tag: reflect.StructTag(via + ":" + strconv.Quote(tag))}}))
+		doc := fmt.Sprintf("c17:\n  key: %s\n", bad)
+		out := kit.RunApp(app.SetComponents(obj.Interface()), app.SetConfigLoader(loader.NewRawLoader([]byte(doc))))
+		desc := fmt.Sprintf("inconvertible %q -> %s via %s", bad, typ, via)
+		if out.Panic != nil {
+			t.Fatalf("C17: %s panicked: %v", desc, out.Panic)
+		}
+		if out.Err == nil {
+			t.Fatalf("C17: %s: start-up succeeded, the field holds %#v", desc, obj.Elem().Field(0).Interface())
+		}
+		kit.Rec.Case(desc, true, "inconvertible")
 	})
 }
